@@ -125,6 +125,36 @@ func level2(tier string, shard, nsh int, res *ev.Result) {
 			}
 		}
 	}
+	// (d) a client that sends far ahead: 25, 26 and 30 requests (300, 312, 360 bytes - the server reads 300 bytes at a
+	// time) in one write, and in two writes cut in the middle of a request
+	for _, cnt := range []int{25, 26, 30} {
+		var fs []serverx.Frame
+		var names []string
+		for i := 0; i < cnt; i++ {
+			f := serverx.Catalogue(uint16(0x5000 + 0x20*i))[5] // fc6, 12 bytes, distinct transaction ids
+			fs = append(fs, f)
+			names = append(names, f.Name)
+		}
+		s := mkStream(fs)
+		short := []string{fmt.Sprintf("%dx fc6", cnt)}
+		jobs = append(jobs, job{scenarioFor(s, short, nil, "racing"), 1})
+		jobs = append(jobs, job{scenarioFor(s, short, []int{len(s.bytes)/2 + 5}, "racing"), 1})
+		jobs = append(jobs, job{scenarioFor(s, short, []int{299}, "settle"), 0})
+	}
+	// (e) a pause between the two halves of a request (the reassembly must not depend on how much time passes)
+	for _, ms := range []int{60, 6000} {
+		sc := scenarioFor(one, []string{"fc3"}, []int{8}, "settle")
+		var ops []string
+		for _, op := range sc.Clients[0] {
+			ops = append(ops, op)
+			if len(ops) == 4 { // dial, write, quiesce, check  -> pause here
+				ops = append(ops, fmt.Sprintf("sleep:%d", ms))
+			}
+		}
+		sc.Clients[0] = ops
+		sc.Name = fmt.Sprintf("L2/pause-%dms/[fc3]/cuts[8]", ms)
+		jobs = append(jobs, job{sc, 1})
+	}
 	var execs, steps, newSteps int64
 	outcomes := map[string]struct{}{}
 	for i, j := range jobs {
